@@ -72,12 +72,15 @@ MatrixRef(ev) ==
       I   == {i \in 1..n : RefScope(Prop, ev.eco, cs[i])}
       key == TLCEval([i \in I |-> RefKey(Prop, ev.eco, cs[i])])
       W(p) == RefCmpKey(Prop, key[p[1]], key[p[2]])
+      \* what the implementation model of a recorded deviation predicts for the pair (2 = no model)
+      Mdl(p) == IF Prop = "C11" THEN RpmImplCmpKey(key[p[1]], key[p[2]])
+                ELSE IF Prop = "C09" THEN PCmpKeyL(key[p[1]], key[p[2]], FALSE) ELSE 2
       \* 2 = the reference leaves the pair unclaimed (only C12 has such pairs)
       unclaimed == IF Prop \in {"C12", "C14"} THEN Cardinality({p \in I \X I : W(p) = 2}) ELSE 0
       bad == {p \in I \X I : LET w == W(p) IN w # 2 /\ w # M[p[1]][p[2]]}
   IN IF PrintT(<<"INFO", ToJson([judged |-> Cardinality(I) * Cardinality(I) - unclaimed, inscope |-> Cardinality(I)])>>) THEN
      {[prop |-> Prop, eco |-> ev.eco, why |-> "ref", a |-> ev.texts[p[1]], b |-> ev.texts[p[2]],
-       got |-> M[p[1]][p[2]], want |-> W(p), known |-> ""] : p \in bad}
+       got |-> M[p[1]][p[2]], want |-> W(p), model |-> Mdl(p), known |-> ""] : p \in bad}
      ELSE {}
 
 (* Spec audit: the reference operator against answers of an executable         *)
